@@ -60,33 +60,39 @@ Definition find_sub (g : state) (id : N) : option sub :=
   | None => match find_ctx id (ctxs g) with Some x => Some (x_sub x) | None => None end
   end.
 
-Definition graft_sub (g : state) (s : sub) : sub :=
-  match find_sub g (s_id s) with
+(** ghost of a subscription: from the monitor's state after its step, else (the implementation kept
+    a subscription the monitor's step dropped) from its state before the step *)
+Definition find_sub2 (g' g : state) (id : N) : option sub :=
+  match find_sub g' id with Some s => Some s | None => find_sub g id end.
+
+Definition graft_sub (g' g : state) (s : sub) : sub :=
+  match find_sub2 g' g (s_id s) with
   | Some gs => with_core s (s_rep_at s) (s_retry_at s) (s_fail s) (s_seen s) (s_seen_ev s) (s_del gs) (s_dev gs) (s_since gs)
   | None => with_core s (s_rep_at s) (s_retry_at s) (s_fail s) (s_seen s) (s_seen_ev s) [] 0 0
   end.
 
-Definition graft_ctx (g : state) (x : ctx) : ctx :=
-  let s := graft_sub g (x_sub x) in
-  match find_ctx (s_id (x_sub x)) (ctxs g) with
+Definition graft_ctx (g' g : state) (x : ctx) : ctx :=
+  let s := graft_sub g' g (x_sub x) in
+  match find_ctx (s_id (x_sub x)) (ctxs g') with
   | Some gx => mkCtx s (x_prim x) (x_nseen x) (x_nseen_ev x) (x_now x) (x_pend gx) (x_vis gx)
   | None => mkCtx s (x_prim x) (x_nseen x) (x_nseen_ev x) (x_now x) [] []
   end.
 
-(** [g]: the monitor's state after its own step; [snap]: the implementation *)
-Definition graft (g snap : state) : state :=
-  mkSt (next_sid snap) (count snap) (map (graft_sub g) (subs snap)) (tab snap) (next_chg snap)
-       (reporting snap) (cancelled snap) (map (graft_ctx g) (ctxs snap)) (kv g)
-       (log g) (nchg g) (evn g).
+(** [g']: the monitor's state after its own step ([g] before it); [snap]: the implementation *)
+Definition graft (g' g snap : state) : state :=
+  mkSt (next_sid snap) (count snap) (map (graft_sub g' g) (subs snap)) (tab snap) (next_chg snap)
+       (reporting snap) (cancelled snap) (map (graft_ctx g' g) (ctxs snap)) (kv g')
+       (log g') (nchg g') (evn g').
 
 Definition mon_step (g : state) (o : op) (ob : option bool) (snap : state) : state :=
-  graft (fst (step_gen true ob g o)) snap.
+  graft (fst (step_gen true ob g o)) g snap.
 
 (** * Timing clauses, executable (evaluated by the monitor on every snapshot) *)
 
 (** a subscription that [report] selected at [now] respected the minimum interval and its back-off *)
 Definition begin_ok (s : sub) (now : N) : bool :=
-  (unprimed s || (s_rep_at s + s_min s * 1000 <=? now)) && (s_retry_at s <=? now).
+  (unprimed s || (IMAX <? s_rep_at s + s_min s * 1000) || (s_rep_at s + s_min s * 1000 <=? now)) &&
+  (s_retry_at s <=? now).
 
 (** the liveness point lies within the maximum interval *)
 Definition due_ok (s : sub) : bool :=
